@@ -4,7 +4,7 @@
    not from the code). *)
 From Coq Require Import NArith List.
 From V Require Import lib.Words model.Concat model.ConcatRun spec.ConcatSpec proofs.Concat_proofs proofs.Concat_inv
-  proofs.Concat_run proofs.Concat_findings.
+  proofs.Concat_run proofs.Concat_findings proofs.Concat_tail.
 Import ListNotations.
 Open Scope N_scope.
 
@@ -22,9 +22,14 @@ Definition C03_bits_stmt : Prop :=
     lenN expected + 16 <= cap -> (4 * length ms + 8 <= fuel)%nat ->
     let r := run_native fuel [cap] false false [] (one_shot ms) (init override) in
     rr_final r = Done Success /\ rr_emitted r = expected.
-(* Proved of the statement so far: the run never panics and keeps the invariant (C03_bits_partial),
-   the window field is read as RFC 7932 says (C16_parse), and the statement holds on the witnesses
-   below, which are the cases the code got wrong before the repairs.  Missing: the general
+(* Proved of the statement so far: the run never panics and keeps the invariant (C03_bits_partial);
+   the window field is read as RFC 7932 says (C16_parse); empty members in any position leave the
+   stream intact: for EVERY tail (a, b) ending in the end marker, at all 8 bit alignments incl. the
+   straddling one, stripping the marker and re-appending it at finish gives back exactly (a, b)
+   (C03_empty_members), and for every supported window override the initial pseudo-stream is the
+   RFC 7932 empty stream of that window, with or without empty members fed through it
+   (C03_override_empty); the statement holds on the witnesses below, which are the cases the code got
+   wrong before the repairs.  Missing: the general
    bit-shifting lemma for realign/copy_whole (that realigned_header holds the header bits at offset
    last_byte_bit_offset followed by the whole bytes) and the induction over members; until then the
    statement is checked on every generated list by checks/c03.py (concat_spec applied to the
@@ -34,6 +39,26 @@ Theorem C03_bits_partial : forall fuel caps percall rall rs tasks s0,
   rr_final (run_native fuel caps percall rall rs tasks s0) <> Panicked.
 Proof. exact run_native_never_panics. Qed.
 Print Assumptions C03_bits_partial.
+
+(* A member shorter than the 5-byte look-ahead (necessarily an empty stream), fed in one buffer after
+   a member whose last two bytes (a, b) end in ISLAST, ISLASTEMPTY - all 65 536 pairs are covered,
+   whatever the other fields of the state and whatever the output buffer - is consumed with
+   NeedsMoreInput and the following `finish` succeeds and emits exactly a, b at the cursor. *)
+Theorem C03_empty_members : forall a b any bo0 ws c out off,
+  a < 256 -> b < 256 -> end_marker_ok a b = true -> lenN c < 5 -> off + 2 <= lenN out ->
+  exists r g, stream (new_brotli_file (mkBC a b 2 false any bo0 ws None)) c 0 out off = Val r /\
+    r_rc r = NeedsMoreInput /\ r_in r = lenN c /\
+    finish (r_s r) (r_out r) (r_off r) = Val g /\ f_rc g = Success /\
+    f_off g = off + 2 /\ f_out g = takeN off out ++ [a; b] ++ dropN (off + 2) out.
+Proof. exact empty_member_keeps_tail_spec. Qed.
+Print Assumptions C03_empty_members.
+
+(* Every supported window override 10..30: `finish` alone, `finish` after one empty member, and
+   after two empty members, all emit concat_spec (Some w) [] = the window field of w followed by
+   ISLAST, ISLASTEMPTY (override_ok w spells out these four equalities). *)
+Theorem C03_override_empty : forall w, 10 <= w -> w <= 30 -> override_ok w = true.
+Proof. exact override_empty. Qed.
+Print Assumptions C03_override_empty.
 
 (* The statement was false of the code before the repairs 3985c2c, 43a0d2f, a559e26, in three
    ways (each replayed on the real pre-fix code; fixed, see known_findings.json), and holds of
